@@ -437,7 +437,9 @@ func runC05(c *Ctx) {
 		cf := f.CFG()
 		key, value := paramObj(f, "key"), paramObj(f, "value")
 		recv := eng.TypeName(info.Defs[f.Decl.Recv.List[0].Names[0]].Type())
-		pl := f.Calls("(*" + recv + ").putLocal")
+		// the local store: putLocal, or the value store's Put itself where putLocal was inlined
+		storePats := []string{"(*" + recv + ").putLocal", "(*" + vsT + ").Put"}
+		pl := f.Calls(storePats...)
 		c.Check(K(f.Name, "stores locally"), f.Pos(), len(pl) == 1, "PutValue stores locally in one place", "found "+itoa(len(pl)))
 		for _, call := range pl {
 			loc := cf.LocOf(call)
@@ -474,17 +476,22 @@ func runC05(c *Ctx) {
 			c.Check(K(f.Name, "local store behind Select"), call.Pos(), okS, "PutValue is refused when a different, better value is stored", "store reachable without `old == nil || equal || Select(key,{value, old}) == 0`")
 			// the network phase lies behind the success of the local store (whatever the error test looks like)
 			for _, gcp := range f.Calls("(*" + recv + ").GetClosestPeers") {
-				gN, _ := cf.Guarded(cf.LocOf(gcp), func(ft eng.Fact) bool { return ft.ErrOf(true, "(*"+recv+").putLocal") })
+				gN, _ := cf.Guarded(cf.LocOf(gcp), func(ft eng.Fact) bool { return ft.ErrOf(true, storePats...) })
 				c.Check(K(f.Name, "network only after the store accepted"), gcp.Pos(), gN, "every refusal of the local store (ErrOldRecord included) ends PutValue before anything is sent", "the lookup is not on the nil-error edge of putLocal")
 			}
 			// failure of the local store ends the operation with that error
-			for _, ed := range errEdges(cf, false, "(*"+recv+").putLocal") {
+			for _, ed := range errEdges(cf, false, storePats...) {
 				ok, w := cf.MustPass(ed.Start(), eng.LocSet(locsOf(cf, f.Calls("(*"+recv+").GetClosestPeers"))...), func(eng.Loc) bool { return false })
 				c.CheckW(K(f.Name, "local store failure ends PutValue"), ed.Fact.Pos(), ok, "when the local store refuses the record nothing is sent to the network", "the network phase is reachable from the error edge", cf.DescribePath(w))
 			}
 		}
 	}
 	for _, fn := range []string{"(*dht.IpfsDHT).putLocal", "(*dht/fullrt.FullRT).putLocal"} {
+		if c.P.Func(fn) == nil {
+			// inlined into its callers: they call ValueStore.Put directly and see its error themselves
+			c.Notes = append(c.Notes, fn+" does not exist in this tree (its callers are checked against ValueStore.Put directly)")
+			continue
+		}
 		f := c.Fn(fn)
 		info := f.Info()
 		cf := f.CFG()
